@@ -440,6 +440,13 @@ func init() {
 		},
 		"(reflect.Value).Type":    func(fr *frame, a []value) value { return makeReflectType(rV2T(a[0])) },
 		"(reflect.Value).CanAddr": func(fr *frame, a []value) value { return rvValid(a[0]) && rvAddr(a[0]) != nil },
+		"(reflect.Value).Addr": func(fr *frame, a []value) value {
+			p := rvAddr(a[0])
+			if !rvValid(a[0]) || p == nil {
+				panic(targetStringPanic("reflect.Value.Addr of unaddressable value"))
+			}
+			return mkRV(types.NewPointer(rV2T(a[0]).t), p, nil, rvFlags(a[0]))
+		},
 		"(reflect.Value).CanSet": func(fr *frame, a []value) value {
 			return rvValid(a[0]) && rvAddr(a[0]) != nil && rvFlags(a[0])&rvRO == 0
 		},
